@@ -262,6 +262,12 @@ theorem facts_multisource :
     ∧ skeleton_incrementalRead = ["dataset.ProcessChanges", "ret-on-err", "set d.MainToken = strconv.Itoa()", "processEntities", "ret-on-err", "return"]
     ∧ skeleton_StartFullSync = ["set multiSource.isFullSync = true", "multiSource.grabWatermarks"]
     ∧ skeleton_EndFullSync = ["set multiSource.isFullSync = false"]
-    ∧ watermarkIfs = ["item == nil || !bytes.HasPrefix(item.Key(), searchBuffer[:6])"] := by decide
+    ∧ watermarkIfs = ["item == nil || !bytes.HasPrefix(item.Key(), searchBuffer[:6])"]
+    ∧ readArgs = ["processDependency: multiSource.Store.GetRelatedAtTime(nextRelatedFrom, batchSize)",
+        "processDependency: depDataset.GetChanges(since, 1, false)",
+        "processDependency: multiSource.Store.GetRelatedAtTime(prevRelatedFrom, batchSize)",
+        "processDependency: multiSource.Store.GetEntityWithInternalID(e, targetDs, true)",
+        "findChanges: depDataset.ProcessChanges(depSince.AsIncrToken(), batchSize, multiSource.LatestOnly, func)",
+        "incrementalRead: dataset.ProcessChanges(since.AsIncrToken(), batchSize, multiSource.LatestOnly, func)"] := by decide
 
 end Hub.C18
